@@ -65,4 +65,11 @@ CHECKS = {
         note="Quick limits the database level to 6 representative states for the two 3-level kinds; thorough enumerates the full product (about 1.6M cases). Stateful create/drop/re-create histories with restarts are not yet explored as sequences (tables are seeded directly).",
         parts=[part("table", "core", "writer", "TestVerifC08Table", shards=(16, 16), budget=(200, 1500))],
     ),
+    "C15": dict(
+        level="model_checking", engine="seq",
+        technique="explicit-state BFS over catalog-generating histories; each reachable catalog is read by the real EtcdOp.GetAllDroppedObj (over fakeetcd) and compared with the model's expectation",
+        text="Every source catalog reachable by a history of legal root-coord operations up to the depth bound (two databases, repeated names across incarnations, all object states, tombstones) is written to the in-memory etcd and read by the real GetAllDroppedObj, with and without a Milvus downstream; entry set and horizons are compared with an expectation computed from the catalog model.",
+        note="Catalogs come from histories so impossible catalogs cannot raise alarms; depth 6 (7 thorough), one collection name per database (two thorough), one partition name. fakeetcd models the etcd Get/prefix semantics used here; key layout and tombstone encoding copied from the reader's own constants.",
+        parts=[part("snapshot", "core", "reader", "TestVerifC15Snapshot", shards=(8, 16), budget=(150, 900))],
+    ),
 }
